@@ -34,7 +34,7 @@ Clean(e, its) ==
   \A k \in 1..(Len(its) - 1) :
      LET nxt == UnitsOf(e, its[k+1])[1] IN
        /\ (e = 8  /\ its[k] = -2) => ~Cont(nxt)
-       /\ (e = 16 /\ its[k] \in {-1, -3}) => ~InR(nxt, 56320, 57343)
+       /\ (e = 16 /\ its[k] \in {-1, -3, -4}) => ~InR(nxt, 56320, 57343)
 
 Init ==
   /\ enc \in {8, 16, 32}
